@@ -131,7 +131,7 @@ FlushBeginD(id) ==
                    ELSE IF NeedsUpdate(EntryOf(g.gk, i), F, R, SR[i], g.due, Opt(g.gk).ri)
                           THEN [pc |-> "retry", n |-> 0, next |-> now]
                           ELSE [pc |-> "done", n |-> 0, next |-> 0]]
-     IN /\ FlushBegin(id, g.gk, fr, now)
+     IN /\ FlushBegin(id, g.gk, fr, g.due)
         /\ grp' = [grp EXCEPT ![id] = [g EXCEPT !.st = "flushing", !.tick = g.due, !.due = now + Opt(g.gk).gi,
                                                  !.dl = now + Max2(Opt(g.gk).gi, MinTimeout), !.frozen = fr, !.pl = pl, !.pc = pcs]]
   /\ UNCHANGED <<gmap, nfl, ids, nposts>>
